@@ -1,33 +1,69 @@
-(* Props/C16.v — Query processing never crashes the host: the part a model can carry (recursion
-   depth of the expression parser).  Stack size, allocator failure and wall time are runtime
-   behaviour: observed by the harness (child processes), not proved. *)
-From Coq Require Import List NArith Bool.
-From NDB Require Import Parser.Depth Parser.Depth_proofs.
+(* Props/C16.v — Query processing never crashes the host: the part a model can carry — the depth
+   budget of the parser bounds, for ALL inputs, the parser's own recursion and the depth of the AST
+   it hands to planner, evaluator and Drop.  How much stack one level costs, the size of the thread
+   stack, allocator failure and wall time are runtime behaviour: observed by the harness (child
+   processes), not proved. *)
+From Coq Require Import List NArith Bool Lia.
+From NDB Require Import Gen.Consts Parser.Depth Parser.Depth_proofs.
 Import ListNotations.
 Open Scope N_scope.
 
-(* what would make deep nesting safe: a constant bound on the parser's recursion depth, for all inputs *)
-Definition C16_full_statement : Prop :=
-  exists bound, forall ts, hw_of (depth_reached None ts) <= bound.
+(* the constants of the code (regenerated from parser.rs on every run) *)
+Definition ce := parser_expression_nesting_cost.
+Definition cq := parser_query_nesting_cost.
+Lemma costs_ok : 1 <= ce /\ ce <= cq.
+Proof. split; vm_compute; discriminate. Qed.
 
-(* the pinned parser (no depth guard): recursion depth = nesting of the input; the 2000-level
-   probe reaches depth 2002 — K-C16-depth *)
+(* recursion depth of the parser bounded by a constant, for every token stream and every budget
+   (in particular the two the code uses) *)
+Definition C16_recursion_depth_bounded_statement : Prop :=
+  forall b ts, ce * hw_of (parse_return ce cq (Some b) ts) <= b.
+Theorem C16_recursion_depth_bounded : C16_recursion_depth_bounded_statement.
+Proof. intros b ts. apply recursion_depth_le_budget. apply costs_ok. Qed.
+Print Assumptions C16_recursion_depth_bounded.
+
+(* every accepted expression has an AST no deeper than the budget: nesting AND left-deep chains *)
+Definition C16_ast_depth_bounded_statement : Prop :=
+  forall b ts rest s e hw, parse_return ce cq (Some b) ts = Ok rest s e hw -> adepth e <= b.
+Theorem C16_ast_depth_bounded : C16_ast_depth_bounded_statement.
+Proof. intros b ts rest s e hw. apply accepted_ast_depth_le_budget. apply costs_ok. Qed.
+Print Assumptions C16_ast_depth_bounded.
+
+(* where the limit lies for the nesting families, with the budget of the harness build: accepted up
+   to 50 levels (49 for the two families with an inner list literal), rejected beyond — every
+   depth up to 400 *)
+Definition threshold (kind : N) : N := match kind with 7 | 8 => 49 | _ => 50 end.
+Definition C16_nesting_threshold_statement : Prop :=
+  forall kind d, (kind < 9) -> (d <= 400)%nat ->
+    rejected (parse_return ce cq (Some parser_depth_budget_debug) (family kind d)) = N.ltb (threshold kind) (N.of_nat d).
+Theorem C16_nesting_threshold : C16_nesting_threshold_statement.
+Proof.
+  assert (H : forallb (fun kind => forallb (fun d =>
+      Bool.eqb (rejected (parse_return ce cq (Some parser_depth_budget_debug) (family kind d))) (N.ltb (threshold kind) (N.of_nat d)))
+      (seq 0 401)) [0;1;2;3;4;5;6;7;8] = true) by (vm_compute; reflexivity).
+  intros kind d Hk Hd. rewrite forallb_forall in H.
+  assert (Hin : In kind [0;1;2;3;4;5;6;7;8]).
+  { destruct kind as [|p]; [cbn; auto|]. do 4 (destruct p as [p|p|]; try (cbn; lia); cbn; auto 12). }
+  specialize (H kind Hin). rewrite forallb_forall in H.
+  specialize (H d ltac:(apply in_seq; lia)). now apply eqb_prop in H.
+Qed.
+Print Assumptions C16_nesting_threshold.
+
+(* the repaired defect (K-C16-depth): without the budget the recursion depth follows the nesting
+   and the AST depth follows the chain length *)
 Definition C16_unguarded_depth_partial_statement : Prop :=
-  depth_reached None (family 0 2000) = Ok [] 2002 /\ depth_reached None (family 3 3000) = Ok [] 3002.
+  hw_of (parse_return 3 6 None (family 0 2000)) = 2002 /\
+  match parse_return 3 6 None (TAtom :: concat (repeat [TBin; TAtom] 3000)) with
+  | Ok _ _ e hw => adepth e = 3001 /\ hw = 3 | _ => False end.
 Theorem C16_unguarded_depth_partial : C16_unguarded_depth_partial_statement.
-Proof. split; [exact unguarded_paren_2000 | exact unguarded_neg_3000]. Qed.
+Proof. split; [exact (proj1 unguarded_paren_2000) | exact unguarded_chain_ast_depth]. Qed.
 Print Assumptions C16_unguarded_depth_partial.
 
-(* a parser with a nesting guard has recursion depth <= limit + 1 for ALL token streams
-   (the candidate repair; not in the pinned code) *)
-Definition C16_guarded_depth_bounded_statement : Prop :=
-  forall limit ts, start_depth <= limit + 1 -> hw_of (depth_reached (Some limit) ts) <= limit + 1.
-Theorem C16_guarded_depth_bounded : C16_guarded_depth_bounded_statement.
-Proof. exact guarded_depth_bounded. Qed.
-Print Assumptions C16_guarded_depth_bounded.
-
-Example C16_guard_not_vacuous :
-  depth_reached (Some 256) (family 0 100) = Ok [] 102 /\
-  rejected (depth_reached (Some 256) (family 0 2000)) = true /\
-  hw_of (depth_reached (Some 256) (family 0 2000)) = 257.
-Proof. exact guard_examples. Qed.
+(* non-vacuity: accepted inputs exist at the limit, and the theorem's bound is met with little slack *)
+Example C16_accepts_at_the_limit :
+  match parse_return ce cq (Some parser_depth_budget_debug) (family 0 50) with
+  | Ok [] _ e hw => adepth e = 51 /\ hw = 52 | _ => False end /\
+  match parse_return ce cq (Some parser_depth_budget_debug) (TAtom :: concat (repeat [TBin; TAtom] 147)) with
+  | Ok [] _ e _ => adepth e = 148 | _ => False end /\
+  rejected (parse_return ce cq (Some parser_depth_budget_debug) (TAtom :: concat (repeat [TBin; TAtom] 148))) = true.
+Proof. vm_compute. auto. Qed.
